@@ -191,7 +191,7 @@ def run_op(model, mspec, op, bad=None):
 	args = None
 	if mspec.get("n_args", 0):
 		na = n - 1 if bad == "args_badlen" else n
-		args = (torch.linspace(-1, 1, max(na, 1) + 2, dtype=dt)[1:na + 1].reshape(na, 1),)
+		args = mw.make_args(mspec, na, dt)
 	dev = "cuda" if bad == "cuda" else "cpu"
 	with warnings.catch_warnings():
 		warnings.simplefilter("ignore")
